@@ -105,6 +105,12 @@ def make_F(fwd, method, wvl, efl, dxi, dxo, S, shift_units):
     return lambda a: fn(a, dxi, efl, wvl, dxo, samples_arg(S), shift=shift_units, method=method)   # noqa
 
 
+def warm_calls(sh, fwd):
+    """sibling calls of a geometry (name, shift in output samples, direction): the judged call is repeated after each of them"""
+    out = [] if (sh[0] == 0 and sh[1] == 0) else [('unshifted', (0, 0), fwd)]
+    return out + [('other-shift', (sh[1] + 1, sh[0] - 2), fwd), ('other-direction', tuple(sh), not fwd)]
+
+
 def run_embed(case, seed, R):
     N, S, P, sh = tuple(case['N']), tuple(case['out']), case['band'], tuple(case['shift'])
     wvl, efl, dxi = UNITS[case['units']]
@@ -174,6 +180,30 @@ def run_embed(case, seed, R):
                     R.expect_close(getattr(outs[1], 'data', None), np.asarray(getattr(outs[0], 'data', np.nan)), TOL * max(1.0, float(np.linalg.norm(xs))),
                                    f'Wavefront.{base}:embedding:{sc2}', f'Wavefront.{name} of the embedded field differs, {n} in {N}')
                     R.expect(outs[0].dx == dxo and outs[1].dx == dxo, f'Wavefront.{name}:dx', 'reported dx is not the requested one')
+            # (i) (ii) (iii) once more with WARM executors: every call above found either an empty cache or an entry made for exactly
+            # its own key.  Here the executors are cleared, ONE sibling call of the same geometry is made (same array shape, spacing,
+            # output samples, method -- only the shift, or only the direction, differs) and then the judged call; its complex field
+            # must be the one the cold operator matrix A (large array) predicts.
+            nw = (min(N[0], nmax), min(N[1], nmax))
+            wins = [N] + [n for n in dict.fromkeys([nw, (max(1, nw[0] - 1), nw[1]), (nw[0], max(1, nw[1] - 1))]) if n != N][:2]
+            for wname, wsh, wfwd in warm_calls(sh, fwd):
+                wshu = (wsh[0] * dxo, wsh[1] * dxo)
+                for n in wins:
+                    xn = x if n == N else dense(n, seed, 5)
+                    want = (A[:, embed_index(n, N)] @ xn.ravel()).reshape(S)
+                    tolw = TOL * max(1.0, float(np.linalg.norm(xn)))
+                    rel = 'linearity' if n == N else f'embedding:{sqc(n)}->{sqc(N)}'
+                    reset_executors(64)
+                    R.call(make_F(wfwd, method, wvl, efl, dxi, dxo, S, wshu), xn.copy(), sig=base + ':exception', hygiene=False)
+                    R.expect_close(R.call(F, xn.copy(), sig=base + ':exception', hygiene=False), want, tolw, f'{base}:warm:after-{wname}:{rel}:{sc2}',
+                                   f'F(f) of a {n} array, shift {sh} samples, called after one {wname} call of the same geometry on cleared executors, '
+                                   f'is not what the operator of the {N} array gives for the embedded field (output {S}, dx_out={dxo:.6g})')
+                    if n == N:
+                        reset_executors(64)
+                        R.call(make_F(wfwd, method, wvl, efl, dxi, dxo, S[::-1], wshu[::-1]), np.ascontiguousarray(xn.T), sig=base + ':transpose:exception', hygiene=False)
+                        o = R.call(Ft, np.ascontiguousarray(xn.T), sig=base + ':transpose:exception', hygiene=False)
+                        R.expect_close(o.T if isinstance(o, np.ndarray) and o.ndim == 2 else o, want, tolw, f'{base}:warm:after-{wname}:transpose:{sqc(N)}->{sqc(S)}:{sc2}',
+                                       f'F(f^T; swapped) after one {wname} call of the same (transposed) geometry is not F(f)^T, input {N} -> {S}, shift {sh}')
     R.nontrivial(N != (1, 1))
     R.outcome(sc)
 
@@ -542,6 +572,229 @@ def ho_canon(st):
 
 
 # ---------------------------------------------------------------------------------------------
+# histories on the SHARED executors over (array embedding, method, direction, SHIFT, transposition): relations (ii) (iii) with
+# warm caches -- one physical field, the executors never cleared inside a history
+
+class ShiftHist:
+    def __init__(self, init, seed):
+        self.trace = []
+        self.f = dense(tuple(init['base']), seed, 43)
+
+
+def hs_fresh(init, seed):
+    reset_executors(64)
+    return ShiftHist(init, seed)
+
+
+def hs_apply(st, ev, R):
+    st.trace = st.trace + [ev]          # the calls are made in hs_check, in order, once per replay (as in embedding_history)
+    return st
+
+
+def hs_events(init, hist, st):
+    return [[si, method, fwd, hi, tr] for si in range(len(init['shapes'])) for method in ('mdft', 'czt') for fwd in (1, 0)
+            for hi in range(len(init['shifts'])) for tr in init.get('transposed', (0, 1))]
+
+
+def _hs_run(st, init, ev, R):
+    """the event's call; returns the output in the orientation of the un-transposed problem, or FAILED"""
+    shape, method, fwd, sh, tr = tuple(init['shapes'][ev[0]]), ev[1], bool(ev[2]), init['shifts'][ev[3]], bool(ev[4])
+    wvl, efl, dxi = HIST_UNITS[init['units']]
+    S = tuple(init['out'])
+    dxo = wvl * efl / (dxi * init['band'])
+    shu = (sh[0] * dxo, sh[1] * dxo)
+    fn = propagation.focus_fixed_sampling if fwd else propagation.unfocus_fixed_sampling
+    a = embed(st.f, shape)
+    sig = f'shift-history:{fn.__name__}:{method}:exception'
+    if tr:
+        o = R.call(fn, np.ascontiguousarray(a.T), dxi, efl, wvl, dxo, samples_arg(S[::-1]), shift=shu[::-1], method=method, sig=sig, hygiene=False)
+        if o is not FAILED and isinstance(o, np.ndarray) and o.ndim == 2:
+            o = o.T
+    else:
+        o = R.call(fn, a, dxi, efl, wvl, dxo, samples_arg(S), shift=shu, method=method, sig=sig, hygiene=False)
+    if o is FAILED or not isinstance(o, np.ndarray) or o.shape != S:
+        if o is not FAILED:
+            R.violation(f'shift-history:{fn.__name__}:{method}:shape', f'output {np.shape(o)} for requested samples {S}')
+        return FAILED
+    return o
+
+
+def hs_check(st, init, hist, R):
+    if not hist:
+        return
+    outs = [_hs_run(st, init, ev, R) for ev in hist]
+    ev, got = hist[-1], outs[-1]
+    if got is FAILED:
+        return
+    shape, method, fwd, sh, tr = tuple(init['shapes'][ev[0]]), ev[1], bool(ev[2]), init['shifts'][ev[3]], bool(ev[4])
+    name = 'focus_fixed_sampling' if fwd else 'unfocus_fixed_sampling'
+    b, P, S = tuple(init['base']), init['band'], tuple(init['out'])
+    sc = 'noshift' if (sh[0] == 0 and sh[1] == 0) else 'shifted'
+    after = f'after {hist[:-1]}' if len(hist) > 1 else 'in a fresh state'
+    what = f'{name}({method}) of the {b} field in a {shape} array{" (transposed problem)" if tr else ""}, shift {sh} samples, output {S}'
+    tol = TOL * max(1.0, float(np.linalg.norm(st.f)))
+    if sc == 'noshift':
+        R.expect_close(got, ref_dft.dft2(st.f, (P / b[0], P / b[1]), S, (0, 0), fwd), tol, f'shift-history:{name}:{method}:textbook', f'{what} vs the textbook sum {after}')
+    # the same physical field, direction and shift earlier in this history (any array, any method, transposed or not)
+    for e0, o0 in zip(hist[:-1], outs[:-1]):
+        if o0 is not FAILED and bool(e0[2]) == fwd and e0[3] == ev[3]:
+            rel = 'transpose' if bool(e0[4]) != tr else ('embedding' if e0[0] != ev[0] else ('methods' if e0[1] != method else 'repeat'))
+            R.expect_close(got, o0, tol, f'shift-history:{name}:{method}:{rel}:{sc}', f'{what} {after} differs from the result of event {e0} earlier in the same history')
+    # the same call, and the same field in the NEXT array of the alphabet, on cleared executors
+    reset_executors(64)
+    cold = _hs_run(st, init, ev, R)
+    if cold is not FAILED:
+        R.expect_close(got, cold, tol, f'shift-history:{name}:{method}:warm-vs-cold:{sc}', f'{what} {after} differs from the same call on cleared executors')
+    reset_executors(64)
+    other = _hs_run(st, init, [(ev[0] + 1) % len(init['shapes']), method, ev[2], ev[3], ev[4]], R)
+    if other is not FAILED:
+        R.expect_close(got, other, tol, f'shift-history:{name}:{method}:embedding:{sc}',
+                       f'{what} {after} differs from the same field in a {tuple(init["shapes"][(ev[0] + 1) % len(init["shapes"])])} array on cleared executors')
+    R.nontrivial(len(hist) > 1)
+    R.outcome(f'hist:{sc}')
+
+
+# ---------------------------------------------------------------------------------------------
+# argument-buffer history: ONE mask array, ONE Lyot array and ONE field array handed to babinet / to_fpm_and_back again and again
+# while the caller refills them in place (preallocated buffers of a broadband / optimisation loop)
+
+MB_M = 6                                    # full-band mask grid for every pupil with sides <= 6
+MB_PROP = ['babinet', 'babinet_lyot', 'babinet_more', 'babinet_w2', 'wf_fpm', 'fn_fpm', 'backprop']
+MB_EDIT = ['refill', 'scale', 'complement', 'new_object', 'lyot_refill', 'field_refill']
+MB_EVENTS = MB_PROP + MB_EDIT
+
+
+class MaskBuf:
+    def __init__(self, init, seed):
+        self.seed = seed
+        self.method = init['method']
+        self.cplx = bool(init['complex_mask'])
+        self.wvl, self.efl, self.dx = HIST_UNITS[init['units']]
+        self.fpm_dx = self.wvl * self.efl / (self.dx * MB_M)
+        self.w = Wavefront(dense(tuple(init['shape']), seed, 81), self.wvl, self.dx, 'pupil')
+        self.w2 = Wavefront(dense(tuple(init['shape'])[::-1], seed, 82), self.wvl, self.dx, 'pupil')
+        self.buf = dense((MB_M, MB_M), seed, 83, complex_=self.cplx)
+        self.lyot = dense(tuple(init['shape']), seed, 84)
+        self.trace = []
+        self.n = 0
+        self.last = None
+
+
+def hm_fresh(init, seed):
+    reset_executors(64)
+    return MaskBuf(init, seed)
+
+
+def hm_events(init, hist, st):
+    return MB_EVENTS
+
+
+def _mb_call(st, ev, R):
+    """propagation event on the state's buffers (exactly the objects the history has been editing); ndarray or FAILED"""
+    k = dict(method=st.method, hygiene=False)
+    if ev in ('babinet', 'babinet_lyot', 'babinet_more', 'babinet_w2'):
+        w = st.w2 if ev == 'babinet_w2' else st.w
+        o = R.call(w.babinet, st.efl, st.lyot if ev == 'babinet_lyot' else None, st.buf, st.fpm_dx, sig='mask-buffer:Wavefront.babinet:exception',
+                   **(dict(k, return_more=True) if ev == 'babinet_more' else k))
+        if ev == 'babinet_more' and o is not FAILED:
+            o = o[0] if isinstance(o, tuple) and len(o) == 4 else None
+    elif ev == 'wf_fpm':
+        o = R.call(st.w.to_fpm_and_back, st.efl, st.buf, st.fpm_dx, sig='mask-buffer:Wavefront.to_fpm_and_back:exception', **k)
+    elif ev == 'fn_fpm':
+        return R.call(propagation.to_fpm_and_back, st.w.data, st.dx, st.efl, st.wvl, st.buf, st.fpm_dx, sig='mask-buffer:to_fpm_and_back:exception', **k)
+    else:
+        # the adjoint entry point shares whatever babinet keeps; its own answer is not judged here (mdft only: czt has no backprop)
+        R.call(st.w.babinet_backprop, st.efl, None, st.buf, st.fpm_dx, method='mdft', sig='mask-buffer:Wavefront.babinet_backprop:exception', hygiene=False)
+        return None
+    if o is FAILED:
+        return FAILED
+    d = getattr(o, 'data', None)
+    if not isinstance(d, np.ndarray):
+        R.violation('mask-buffer:type', f'{ev} did not return a Wavefront carrying an ndarray')
+        return FAILED
+    return d
+
+
+def hm_apply(st, ev, R):
+    st.trace = st.trace + [ev]
+    st.last = None
+    st.n += 1
+    if ev in MB_PROP:
+        snap = (st.buf.copy(), st.lyot.copy(), st.w.data.copy())
+        st.last = (ev, _mb_call(st, ev, R), snap)
+    elif ev == 'refill':
+        st.buf[...] = dense(st.buf.shape, st.seed, 90 + st.n, complex_=st.cplx)
+    elif ev == 'scale':
+        st.buf *= (0.5 + 0.25j) if st.cplx else -0.75
+    elif ev == 'complement':
+        st.buf[...] = 1 - st.buf
+    elif ev == 'new_object':
+        st.buf = dense(st.buf.shape, st.seed, 90 + st.n, complex_=st.cplx)
+    elif ev == 'lyot_refill':
+        st.lyot[...] = dense(st.lyot.shape, st.seed, 90 + st.n)
+    elif ev == 'field_refill':
+        st.w.data[...] = dense(st.w.data.shape, st.seed, 90 + st.n)
+    return st
+
+
+def _mb_T(st, x, mask, R):
+    """to_fpm_and_back (the plain function) on FRESH copies: x -> T(mask) x"""
+    return R.call(propagation.to_fpm_and_back, np.array(x, copy=True), st.dx, st.efl, st.wvl, np.array(mask, copy=True), st.fpm_dx, method=st.method,
+                  sig='mask-buffer:to_fpm_and_back:exception', hygiene=False)
+
+
+def hm_check(st, init, hist, R):
+    m = st.method
+    after = f'after {hist[:-1]}' if len(hist) > 1 else 'as the first event'
+    mk = 'complex-mask' if st.cplx else 'real-mask'
+    mmax = 1.0 + float(np.max(np.abs(st.buf)))
+    memo = {}
+
+    def judge(ev, got, x, lyot, tag, when):
+        """got = result of event ev for field x, the CURRENT contents of the mask buffer and lyot"""
+        if got is FAILED or got is None:
+            return
+        tol = TOL * 10 * mmax * max(1.0, float(np.linalg.norm(x))) * (1.0 if lyot is None else 1.0 + float(np.max(np.abs(lyot))))
+        if id(x) not in memo:
+            memo[id(x)] = (_mb_T(st, x, st.buf, R), _mb_T(st, x, 1 - st.buf, R))      # after the history: cannot disturb it
+        Tm, Tc = memo[id(x)]
+        if Tm is FAILED or Tc is FAILED:
+            return
+        if not all(isinstance(t, np.ndarray) and t.shape == x.shape and t.dtype.kind in 'fc' for t in (Tm, Tc)):
+            R.violation(f'mask-buffer:to_fpm_and_back:{m}:shape', f'to_fpm_and_back of a {x.shape} field does not return an array of that shape')
+            return
+        L = 1.0 if lyot is None else lyot
+        if ev.startswith('babinet'):
+            R.expect_close(got, L * (x - Tc), tol, f'mask-buffer:Wavefront.babinet:{m}:{mk}:{tag}', f'{ev} {when}: babinet(lyot, M) != lyot*(f - T(1-M) f) for the current contents of the mask array')
+            R.expect_close(got, L * Tm, tol, f'mask-buffer:Wavefront.babinet:{m}:{mk}:{tag}', f'{ev} {when}: on the full-band mask grid babinet(lyot, M) != lyot*T(M) f (mask and complement do not sum to the unmasked field)')
+        else:
+            R.expect_close(got, x - Tc, tol, f'mask-buffer:to_fpm_and_back:{m}:{mk}:{tag}', f'{ev} {when}: T(M) f + T(1-M) f != f on the full-band mask grid for the current contents of the mask array')
+            R.expect_close(got, Tm, tol, f'mask-buffer:to_fpm_and_back:{m}:{mk}:{tag}', f'{ev} {when}: differs from the function called with fresh copies of the same field and mask')
+
+    if st.last is not None:
+        ev, got, snap = st.last
+        R.expect(_eq(st.buf, snap[0]) and _eq(st.lyot, snap[1]) and _eq(st.w.data, snap[2]), 'mask-buffer:argument-modified', f'{ev} changed the mask / Lyot / field array it was given')
+        x = st.w2.data if ev == 'babinet_w2' else st.w.data
+        judge(ev, got, x, st.lyot if ev == 'babinet_lyot' else None, 'event', after)
+        R.outcome('propagate')
+    else:
+        R.outcome('edit')
+    # in EVERY state: babinet and to_fpm_and_back handed the buffers as they are now
+    when = f'after {hist}' if hist else 'initially'
+    for ev in ('babinet_lyot', 'wf_fpm'):
+        judge(ev, _mb_call(st, ev, R), st.w.data, st.lyot if ev == 'babinet_lyot' else None, 'state', when)
+    R.nontrivial(len(hist) > 0)
+
+
+def _eq(a, b):
+    return a.shape == b.shape and bool(np.array_equal(a, b))
+
+
+def hm_canon(st):
+    return json.dumps(st.trace)
+
+
+# ---------------------------------------------------------------------------------------------
 
 EMB_OUT = [[3, 3], [4, 5], [6, 2]]
 EMB_BAND = [[4.0, 0], [7.3, 1], [12.0, 0]]          # (n_axis * Q_axis, unit set)
@@ -570,6 +823,15 @@ def plan(tier, seed):
     he_inits = [{'M': M, 'base': b, 'band': float(M), 'units': u,
                  'shapes': [list(t) for t in dict.fromkeys([(b, b), (b + 1, b + 1), (M, M), (b, M), (M, b + 1)])]} for (M, b) in fams for u in (0, 1)]
     ho_inits = [{'shape': sh, 'method': m, 'units': u} for (sh, u) in (([4, 5], 0), ([6, 6], 1)) for m in ('mdft', 'czt')]
+    hs_shapes, hs_shifts = ([[3, 4], [5, 5], [4, 6]], [[0, 0], [1, -2], [0.5, 1.25]]) if tier == 'quick' else \
+        ([[3, 4], [5, 5], [4, 6], [6, 4], [7, 7]], [[0, 0], [1, -2], [0.5, 1.25], [-1.5, 0]])
+    hs_inits = [{'base': [3, 4], 'shapes': hs_shapes, 'out': S, 'band': P, 'units': u, 'shifts': hs_shifts}
+                for (S, P, u) in (([4, 4], 7.3, 0), ([4, 5], 12.0, 1))]
+    # depth 3 (an entry derived from a derived entry) on a reduced alphabet: 2 arrays, no transposed problems -> 24 events
+    hs_deep = [{'base': [3, 4], 'shapes': [[3, 4], [5, 5]], 'out': S, 'band': P, 'units': u, 'shifts': [[0, 0], [1, -2], [0.5, 1.25]], 'transposed': [0]}
+               for (S, P, u) in (([4, 4], 7.3, 0), ([4, 5], 12.0, 1))]
+    hm_inits = [{'shape': [4, 5], 'method': m, 'complex_mask': c, 'units': u} for (c, u) in ((1, 0), (0, 1)) for m in ('mdft', 'czt')]
+    hs_depth, hm_depth = 2, (3 if tier == 'quick' else 4)
     ns_shapes = [[40, 41], [100, 101], [400, 401], [1000, 1001], [1200, 1201], [1201, 1200]] + \
         ([] if tier == 'quick' else [[200, 201], [512, 513], [1024, 1025], [1500, 1501], [1999, 2000], [2048, 2049], [2049, 2048]])
     ns_cases = [{'N': N, 'out': S, 'band': P, 'units': u, 'shift': sh} for N in sorted(ns_shapes)
@@ -580,7 +842,9 @@ def plan(tier, seed):
                   'x shift in {(0,0), (1,0), (0,-2), (0.5,1.25)} output samples; inside every case {mdft, czt} x {focus_fixed_sampling, unfocus_fixed_sampling}: operator matrix from all complex deltas; '
                   '(i) i*delta columns, dense complex and real fields; (iii) every delta transposed with samples and shift swapped; '
                   f'(ii) EVERY smaller window n in [1..{nmax}]^2, n <= N per axis, n != N: operator on the small array equals the columns of the large operator at the harness\' own n//2 -> N//2 embedding (complex equality, shifts included); '
-                  'Wavefront methods on an embedded dense field', reset=rs),
+                  'Wavefront methods on an embedded dense field; '
+                  'history axis: on cleared executors ONE sibling call of the same geometry (unshifted [for shifted cases] / another shift / the other direction) and then the judged call, for a dense field in N (linearity), in the 2 largest windows '
+                  '(embedding) and transposed: the complex field must be what the cold operator of the N array predicts', reset=rs),
         ScopeUnit('fpm_identity', fpm_cases, run_fpm_identity,
                   f'every pupil shape n in [1..{nmax}]^2 x full-band mask size M in [max(n)..{Nmax}] (fpm_dx = wvl*efl/(dx*M), so samples = n*Q exactly on both axes) x shift (sx, sy) in {FPM_SHIFT}^2 focal-plane samples '
                   'x {mdft, czt}: operator matrix of to_fpm_and_back(all-ones) must be I; the two legs called directly with the same number of samples of shift must compose to I; Wavefront.to_fpm_and_back (return_more both ways)', reset=rs),
@@ -596,6 +860,22 @@ def plan(tier, seed):
                     'mask A with a shift, the all-ones mask, babinet, focus_fixed_sampling (all on one 8x8 focal grid that covers the whole band), wf.data replaced by another array of the same shape, wf.data scaled in place, in-place pad2d and crop; '
                     'states are never merged; after every propagation event the result must equal the same call on a FRESH Wavefront built from the object\'s current data / dx / wavelength and the object\'s data must be untouched; '
                     'in every state the all-ones full-band mask must return the current field'),
+        HistoryUnit('shift_history', hs_inits, hs_fresh, hs_events, hs_apply, hs_check, he_canon, hs_depth,
+                    f'relations (ii) (iii) with WARM executors: one seeded dense 3x4 physical field embedded (by the harness) in arrays {hs_shapes}; outputs 4 (int form, band 7.3) and (4,5) (band 12), two unit sets; '
+                    f'every history of length <= {hs_depth} over events (array, method in {{mdft, czt}}, direction, shift in {hs_shifts} output samples, problem transposed with swapped samples / shift or not) '
+                    f'= {len(hs_shapes) * 8 * len(hs_shifts)} events on the SHARED executors with no clear() in between, so that every call finds the cache entries of every kind of sibling call (same geometry with another shift, the unshifted one, the other direction, '
+                    'the transposed square problem = same key with the shift swapped, the other method); in every state the last complex field must equal every earlier result of the same direction and shift in the history '
+                    '(embedding / transposition / method / repeat), the same call on cleared executors, the same field in the next array of the alphabet on cleared executors, and for zero shift the textbook sum'),
+    ] + ([] if tier == 'quick' else [
+        HistoryUnit('shift_history_deep', hs_deep, hs_fresh, hs_events, hs_apply, hs_check, he_canon, 3,
+                    'thorough tier only: as shift_history, every history of length <= 3 (a cache entry derived from a derived entry) on the reduced alphabet arrays (3,4), (5,5) x {mdft, czt} x direction x '
+                    'shift in {(0,0), (1,-2), (0.5,1.25)} = 24 events, no transposed problems; same oracles'),
+    ]) + [
+        HistoryUnit('mask_buffer_history', hm_inits, hm_fresh, hm_events, hm_apply, hm_check, hm_canon, hm_depth,
+                    f'argument buffers reused by the caller: ONE mask array (6x6, full band of a (4,5) pupil; complex and real), ONE Lyot array, ONE Wavefront (+ a second one of shape (5,4)), methods mdft / czt: every history up to depth {hm_depth} '
+                    f'over {MB_EVENTS} -- Wavefront.babinet (no lyot / lyot / return_more / from the second Wavefront), Wavefront.to_fpm_and_back, the function to_fpm_and_back, babinet_backprop (not judged, shares state), all handed the SAME '
+                    'array objects; the mask array refilled in place / scaled in place / complemented in place / replaced by a new array, the Lyot array and the field array refilled in place; states never merged. After every propagation event and, '
+                    'with babinet(lyot) and to_fpm_and_back, in EVERY state: babinet(lyot, M) = lyot*(f - T(1-M) f) = lyot*T(M) f and T(M) f + T(1-M) f = f for the CURRENT contents (T = the plain function on fresh copies), arguments untouched'),
         ScopeUnit('shift_forms', sf_cases, run_shift_forms,
                   'argument-form alphabet of the shift: pupils (3,3),(2,4),(5,3) x outputs (4,4),(3,5) x 4 physical shifts (integral and fractional, one axis zero) x {mdft, czt} x '
                   '{focus_fixed_sampling, unfocus_fixed_sampling, to_fpm_and_back, Wavefront.focus_fixed_sampling, Wavefront.to_fpm_and_back}: the shift given as tuple of numpy scalars / list / float64 ndarray / '
